@@ -981,6 +981,7 @@ func (t *LT) composite(cl *ast.CompositeLit) (string, error) {
 type kont struct {
 	fall string // "" = falling through is an error
 	cont string // "" = continue not allowed here
+	brk  string // "" = break not allowed here; else the step that leaves the loop with the current state
 	ret  func(string) string
 }
 
@@ -1201,7 +1202,7 @@ func terminates(l []ast.Stmt) bool {
 	case *ast.ReturnStmt:
 		return true
 	case *ast.BranchStmt:
-		return s.Tok == token.CONTINUE
+		return s.Tok == token.CONTINUE || (s.Tok == token.BREAK && s.Label == nil)
 	case *ast.BlockStmt:
 		return terminates(s.List)
 	case *ast.IfStmt:
@@ -1322,6 +1323,10 @@ func (t *LT) block(l []ast.Stmt, k kont) (string, error) {
 	case *ast.BranchStmt:
 		if s.Tok == token.CONTINUE && s.Label == nil && k.cont != "" {
 			return k.cont, nil
+		}
+		if s.Tok == token.BREAK && s.Label == nil && k.brk != "" {
+			t.esc = true
+			return k.brk, nil
 		}
 		return "", t.errf(s, "unsupported branch statement")
 	case *ast.DeclStmt:
@@ -1543,7 +1548,7 @@ func (t *LT) ifStmt(s *ast.IfStmt, after []ast.Stmt, k kont) (string, error) {
 			t.nK++
 			kn := fmt.Sprintf("K%d", t.nK)
 			call := kn + " " + tuple(sv)
-			a, err := t.block(s.Body.List, kont{fall: call, cont: k.cont, ret: k.ret})
+			a, err := t.block(s.Body.List, kont{fall: call, cont: k.cont, brk: k.brk, ret: k.ret})
 			if err != nil {
 				return "", err
 			}
@@ -1609,7 +1614,7 @@ func (t *LT) ifStmt(s *ast.IfStmt, after []ast.Stmt, k kont) (string, error) {
 	t.nK++
 	kn := fmt.Sprintf("K%d", t.nK)
 	call := kn + " " + tuple(sv)
-	inner := kont{fall: call, cont: k.cont, ret: k.ret}
+	inner := kont{fall: call, cont: k.cont, brk: k.brk, ret: k.ret}
 	a, err := t.block(s.Body.List, inner)
 	if err != nil {
 		return "", err
@@ -1757,6 +1762,14 @@ func (t *LT) rangeStmt(s *ast.RangeStmt, k kont, rest func() (string, error)) (s
 	}
 	inner := kont{fall: "(LNext " + next + ")", cont: "(LNext " + next + ")",
 		ret: func(v string) string { return "(LRet " + k.ret(v) + ")" }}
+	// break: the loop ends with what follows it, run on the state of that moment (the code after
+	// the loop is the function KBn of the state, shared with the normal exit)
+	kb := ""
+	if len(all) > 0 && hasBreak(s.Body.List) {
+		t.nK++
+		kb = fmt.Sprintf("KB%d", t.nK)
+		inner.brk = "(LRet (" + kb + " " + tuple(all) + "))"
+	}
 	body, err := t.block(s.Body.List, inner)
 	if err != nil {
 		return "", err
@@ -1774,7 +1787,32 @@ func (t *LT) rangeStmt(s *ast.RangeStmt, k kont, rest func() (string, error)) (s
 	if len(all) == 0 {
 		pat = "_"
 	}
+	if kb != "" {
+		return fmt.Sprintf("let %s := %s in\n  match loop_fold %s %s %s with\n  | LRet r_ => r_\n  | LNext st_ => %s st_\n  end",
+			kb, funTuple(all, r), step, xs, init, kb), nil
+	}
 	return fmt.Sprintf("match loop_fold %s %s %s with\n  | LRet r_ => r_\n  | LNext %s => %s\n  end", step, xs, init, pat, r), nil
+}
+
+// hasBreak: an unlabelled break that belongs to this loop body (not to a nested loop, switch or select)
+func hasBreak(l []ast.Stmt) bool {
+	found := false
+	var walk func(n ast.Node) bool
+	walk = func(n ast.Node) bool {
+		switch y := n.(type) {
+		case *ast.ForStmt, *ast.RangeStmt, *ast.SwitchStmt, *ast.TypeSwitchStmt, *ast.SelectStmt, *ast.FuncLit:
+			return false
+		case *ast.BranchStmt:
+			if y.Tok == token.BREAK && y.Label == nil {
+				found = true
+			}
+		}
+		return true
+	}
+	for _, st := range l {
+		ast.Inspect(st, walk)
+	}
+	return found
 }
 
 // inlineErrHelper handles   x, err := h(args) ; if err != nil { S }  ; REST   where h is an
@@ -1800,7 +1838,7 @@ func (t *LT) inlineErrHelper(s *ast.AssignStmt, l []ast.Stmt, k kont) (string, b
 	return t.inlineErrCore(c, k,
 		func(v string, rk kont) (string, error) {
 			xv := t.bind(x.Name, x.Pos())
-			r, err := t.block(l[2:], kont{fall: k.fall, cont: k.cont, ret: rk.ret})
+			r, err := t.block(l[2:], kont{fall: k.fall, cont: k.cont, brk: k.brk, ret: rk.ret})
 			if err != nil {
 				return "", err
 			}
@@ -1808,7 +1846,7 @@ func (t *LT) inlineErrHelper(s *ast.AssignStmt, l []ast.Stmt, k kont) (string, b
 		},
 		func(ev string, rk kont) (string, error) {
 			t.env[e.Name] = ev
-			return t.block(ifs.Body.List, kont{fall: k.fall, cont: k.cont, ret: rk.ret})
+			return t.block(ifs.Body.List, kont{fall: k.fall, cont: k.cont, brk: k.brk, ret: rk.ret})
 		})
 }
 
